@@ -73,6 +73,7 @@ def _chunk_worker(args):
            "ood": 0, "aborted_other": 0, "harness": [], "digests": []}
     m = hashlib.sha256()
     findings = load_findings()
+    seen_digests = set()
     unlisted = 0
     listed = 0
     hang = False
@@ -92,6 +93,7 @@ def _chunk_worker(args):
             out["harness"].append((index, tb))
             continue
         m.update(res["digest"].encode())
+        seen_digests.add(res["digest"])
         if len(out["digests"]) < 5:
             out["digests"].append((index, res["digest"] + ("!" + res["violation"]["kind"] if res["violation"] else "")))
         if res.get("nts"):
@@ -117,6 +119,7 @@ def _chunk_worker(args):
             out["samples"].append({"run": index, "seed": seed, "case": case, "trace": res.get("trace"),
                                    "digest": res["digest"]})
     out["chunk_digest"] = m.hexdigest()[:24]
+    out["distinct_digests"] = len(seen_digests)
     return out
 
 
@@ -313,6 +316,7 @@ def run_check(pid: str, tier: str, root_seed: int, workers=None, budget_override
                     agg["harness"].extend(out["harness"])
                     agg["samples"].extend(out["samples"])
                     agg["chunk_digests"][out["first"]] = out["chunk_digest"]
+                    agg["distinct_digests"] = agg.get("distinct_digests", 0) + out.get("distinct_digests", 0)
                     agg["digests"][out["first"]] = out["digests"]
                     if any(match_finding(findings, pid, v) is None for _, v, _ in out["violations"]):
                         # an unlisted violation: no point in exploring further, stop everybody
@@ -447,6 +451,10 @@ def run_check(pid: str, tier: str, root_seed: int, workers=None, budget_override
             "out_of_domain": agg["ood"], "aborted_other": agg["aborted_other"],
             "harness_errors": len(agg["harness"]),
             "batch_digest": m.hexdigest()[:24],
+            "distinct_executions": agg.get("distinct_digests", 0),
+            "distinct_executions_measure": "number of distinct event-log digests (the digest covers the decoded "
+                                           "schedule / history / fault list AND every observed result), counted "
+                                           "within each chunk and summed over chunks",
             "determinism_probe": det,
             "components": check.COMPONENTS,
             "known_findings_printed": known_lines,
